@@ -44,10 +44,10 @@ impl Property for C06 {
         "C06"
     }
     fn rule(&self) -> String {
-        "Cases: (operand of any zoo type/length/provenance, rotation amount 0<=k<=len, direction). Enumerated: all values and all k for n<=10 (quick)/13 (thorough) on all 18 types; every (n,k) for n<=min(C,100)/200 with run-pattern values whose run of ones ends at k, at k+-1 and at a storage-word boundary. Oracle: list rotation (bit i moves to (i+k) mod n for rotl, (i-k) mod n for rotr), the stated consequences as metamorphic checks (rotl k then rotr k = identity; rotl k = rotr (n-k); popcount preserved) and the observer battery on every result. Non-trivial: n>1, 0<k<n and the value is not invariant under that rotation. Distinct by hash of the case.".into()
+        "Cases: (operand of any zoo type/length/provenance, rotation amount 0<=k<=len, direction). Enumerated: all values and all k for n<=10 (quick)/13 (thorough) on all 19 types; every (n,k) for n<=min(C,100)/320 with run-pattern values whose run of ones ends at k, at k+-1 and at a storage-word boundary. Oracle: list rotation (bit i moves to (i+k) mod n for rotl, (i-k) mod n for rotr), the stated consequences as metamorphic checks (rotl k then rotr k = identity; rotl k = rotr (n-k); popcount preserved) and the observer battery on every result. Non-trivial: n>1, 0<k<n and the value is not invariant under that rotation. Distinct by hash of the case.".into()
     }
     fn random_cases(&self, tier: Tier) -> u64 {
-        tier.pick(200000, 800000)
+        tier.pick(200000, 6400000)
     }
     fn strategy(&self, tier: Tier) -> BoxedStrategy<C06Case> {
         (arb_operand(tier), any::<u16>(), 0usize..16, any::<bool>()).prop_map(|(a, f, sel, left)| {
@@ -70,7 +70,7 @@ impl Property for C06 {
         }).boxed()
     }
     fn exhaustive_subspaces(&self, tier: Tier) -> Vec<String> {
-        vec![format!("all values x all k in 0..=n for n<={} (clipped to capacity) x both directions x 18 types", tier.pick(10, 13))]
+        vec![format!("all values x all k in 0..=n for n<={} (clipped to capacity) x both directions x 19 types", tier.pick(10, 13))]
     }
     fn enumerate(&self, tier: Tier, sh: &mut Shard, f: &mut dyn FnMut(C06Case) -> bool) {
         let ksmall = tier.pick(10, 13);
@@ -113,7 +113,7 @@ impl Property for C06 {
                 }
             }
         }
-        let nmax = tier.pick(100, 200);
+        let nmax = tier.pick(100, 320);
         for t in 0..NT {
             let c = fixed_cap(t).unwrap_or(nmax).min(nmax);
             let w = WORD_BITS[t as usize];
